@@ -371,7 +371,7 @@ func init() {
 		MinNontrivial: 500,
 		Streams: []Stream{
 			{Name: "sites", Setup: c08Setup, N: c08N, Run: c08Run, Exhaustive: true},
-			{Name: "random", Setup: c08Setup, N: func(c *Ctx) int { return tierN(c, 20000, 1500000) }, Run: c08Random},
+			{Name: "random", Setup: c08Setup, N: func(c *Ctx) int { return tierN(c, 20000, 5000000) }, Run: c08Random},
 			{Name: "history", Setup: c08Setup, N: func(c *Ctx) int { return tierN(c, 1500, 20000) }, Run: c08History},
 		},
 	})
